@@ -14,6 +14,7 @@ import GlareModel.Core.Unify
 import GlareModel.Core.Footer
 import GlareModel.Core.Layout
 import GlareModel.Core.Plain
+import GlareModel.Core.Proto
 
 /-! `gmodel`: line-protocol driver. Reads `case <n> <component> ...` lines on stdin and
 prints `out <n> ...` lines computed by the code-shaped model. -/
@@ -390,6 +391,29 @@ def runPqPage (args : List String) : String :=
     | _, _, _ => "bad-case"
   | _ => "bad-case"
 
+/-- `case N tasktrace <kind:flags:err> ...` -> `accept` | `reject@i`. -/
+def runTaskTrace (args : List String) : String :=
+  let evs := args.filterMap fun a =>
+    match a.splitOn ":" with
+    | [k, f, e] =>
+      let b (i : Nat) : Bool := (f.toList.getD i '0') == '1'
+      let fl : Proto.Flags := (b 0, b 1, b 2, b 3)
+      let ev : Option Proto.Ev := match k with
+        | "schedule" => some (.schedule (e == "1"))
+        | "cancel-set" => some .cancelSet
+        | "begin" => some .begin
+        | "poll-ready" => some (.poll .ready)
+        | "poll-err" => some (.poll .err)
+        | "poll-pending" => some (.poll .pending)
+        | "end" => some .end_
+        | _ => none
+      ev.map fun e => (e, fl)
+    | _ => none
+  if evs.length != args.length then "bad-case" else
+  match Proto.accept evs with
+  | none => "accept"
+  | some i => s!"reject@{i}"
+
 def step (line : String) : Option String :=
   -- `case N sem <payload>`: the payload keeps its spaces
   match (line.trimAscii.toString.splitOn " ") with
@@ -405,6 +429,7 @@ def step (line : String) : Option String :=
   | "case" :: n :: "cast" :: args => some s!"out {n} {runCast args}"
   | "case" :: n :: "like" :: args => some s!"out {n} {runLike args}"
   | "case" :: n :: "rle" :: args => some s!"out {n} {runRle args}"
+  | "case" :: n :: "tasktrace" :: args => some s!"out {n} {runTaskTrace args}"
   | "case" :: n :: "pqpage" :: args => some s!"out {n} {runPqPage args}"
   | "case" :: n :: "layout" :: args => some s!"out {n} {runLayout args}"
   | "case" :: n :: "footer" :: args => some s!"out {n} {runFooter args}"
